@@ -137,6 +137,18 @@ func c11Damage(content []byte, offs []int, f c11Fault) ([]byte, int) {
 			return out[:offs[k]+4+3], -1
 		}
 		return out, -1
+	case "trunc4":
+		// seeded mutant C11-m7: cut exactly between the complete length prefix and the first byte of the body
+		if k < nmsg {
+			return out[:offs[k]+4], -1
+		}
+		return out, -1
+	case "trunc2":
+		// cut inside the length prefix
+		if k < nmsg {
+			return out[:offs[k]+2], -1
+		}
+		return out, -1
 	case "garbage":
 		if k < nmsg {
 			for i := offs[k] + 4; i < offs[k+1]; i++ {
@@ -203,7 +215,7 @@ func c11Sites(l *fsLayout) []c11Fault {
 		for k := 0; k <= len(l.Files[i]); k++ {
 			out = append(out, c11Fault{Type: "read", File: i, K: k, Damage: "storage"})
 			if k < len(l.Files[i]) {
-				for _, d := range []string{"storage-mid", "len0", "lenbig", "trunc", "garbage"} {
+				for _, d := range []string{"storage-mid", "len0", "lenbig", "trunc", "garbage", "trunc4", "trunc2"} {
 					out = append(out, c11Fault{Type: "read", File: i, K: k, Damage: d})
 				}
 				b := l.Files[i][k]
@@ -404,7 +416,11 @@ func c11Exec(raw json.RawMessage) (*Case, error) {
 			name := fsFileName(l.base(f.File))
 			content, offs := fsBundleOffsets(l.Files[f.File])
 			damaged, failAt := c11Damage(content, offs, f)
-			if c11ReaderSees(damaged, failAt, l.Files[f.File]) != f.K {
+			// a file that ends inside message K (inside its length prefix, right after it, or inside its first fields) is a
+			// fault at Read K by the format itself: for these variants the real reader is NOT asked whether it is one (it was,
+			// and a reader that takes a cut right after a length prefix for a clean end of file went unnoticed: C11-m7)
+			byFormat := f.Damage == "trunc" || f.Damage == "trunc4" || f.Damage == "trunc2"
+			if !byFormat && c11ReaderSees(damaged, failAt, l.Files[f.File]) != f.K {
 				// this variant is not a fault at Read K for these bytes (e.g. it decodes as an altered
 				// block, C16's subject): use the storage error, which always is
 				f.Damage = "storage"
